@@ -52,8 +52,9 @@ def shards(tier):
     for buf in ([512] if q else [512, 8192]):
         wb = 6 if q else 8
         for depth in (2, 3):
-            for where in ("bit0", "bit3", "bit5", "cross", "chunk2"):
-                if q and depth == 3 and where in ("bit3", "chunk2"):
+            for where in ("bit0", "bit3", "bit5", "cross", "chunk2", "mid512", "4k-bit5", "4k-cross", "4k-4g", "4k-20g",
+                          "4k-chunk2"):
+                if q and depth == 3 and where in ("bit3", "chunk2", "mid512", "4k-bit5", "4k-cross", "4k-20g", "4k-chunk2"):
                     continue
                 k = 4 if depth == 2 else 32
                 for i in range(k):
@@ -164,7 +165,7 @@ def _write_vhdx_layer(d, names, k, states, slots, bitmaps, cache, block_size=MB,
         parent = [("parent_linkage", "{83ed3b12-f5c1-4e3c-9d0e-2f0e3b6c1a00}"),
                   ("relative_path", ".\\" + names[k - 1]),
                   ("absolute_win32_path", "C:\\gone\\" + names[k - 1])]
-    key = (k, tuple(states), tuple(slots), repr(sorted((bitmaps or {}).items())) if bitmaps else None, total, at)
+    key = (k, tuple(states), tuple(slots), repr(sorted((bitmaps or {}).items())) if bitmaps else None, total, at, sector)
     path = os.path.join(d, names[k])
     if cache.get(names[k]) == key:
         return path
@@ -247,9 +248,15 @@ def _bitmap_window(where, wb, spb):
         return 16 + 5
     if where == "cross":
         return spb - wb // 2
-    if where == "chunk2":
-        return 4096 * spb + 8 + 5
+    if where in BITMAP_AT:
+        return BITMAP_AT[where][0] * spb + (spb - wb // 2 if where.endswith("cross") else 8 + 5)
     raise ValueError(where)
+
+
+# window position (block index, 1 MiB blocks) and logical sector size: a chunk holds 2^23 sectors, i.e. 4096 blocks with
+# 512-byte sectors and 32768 blocks with 4096-byte sectors
+BITMAP_AT = {"chunk2": (4096, 512), "mid512": (2049, 512), "4k-bit5": (0, 4096), "4k-cross": (0, 4096), "4k-4g": (4096, 4096),
+             "4k-20g": (20481, 4096), "4k-chunk2": (32768, 4096)}
 
 
 def _shard_vhdx_bitmap(shard, ctx):
@@ -271,17 +278,17 @@ def _case_vhdx_bitmap(case, ctx, d, cache):
 
     where, wb, bits = case["where"], case["wb"], case["bits"]
     depth = len(bits) + 1
-    spb = MB // 512
+    at, sector = BITMAP_AT.get(where, (0, 512))
+    spb = MB // sector
     w0 = _bitmap_window(where, wb, spb)
-    at = 4096 if where == "chunk2" else 0
     total = at + 2
     names = _vhdx_names(depth)
     buf = bootstrap.bufsize()
     # base layer: both blocks fully present (or not present at all -> zeros below the base)
     base_states = [case["base"], case["base"]]
     _write_vhdx_layer(d, names, 0, base_states, [0 if case["base"] == DATA else None, 1 if case["base"] == DATA else None],
-                      None, cache, total=total, at=at)
-    disk = B.model(base_states, MB, 512, None, 1, None, total_blocks=total, window_at=at)
+                      None, cache, total=total, at=at, sector=sector)
+    disk = B.model(base_states, MB, sector, None, 1, None, total_blocks=total, window_at=at)
     for k, word in enumerate(bits, start=1):
         bm = {at: [0] * spb, at + 1: [0] * spb}
         # background outside the window: layer k holds every 7th sector group so that neighbours differ per layer
@@ -290,8 +297,8 @@ def _case_vhdx_bitmap(case, ctx, d, cache):
             if word >> j & 1:
                 bm[at + s // spb][s % spb] = 1
         states = [B.PARTIAL, B.PARTIAL]
-        _write_vhdx_layer(d, names, k, states, [1, 0] if k % 2 else [0, 1], bm, cache, total=total, at=at)
-        disk = B.model(states, MB, 512, None, k + 1, disk, bitmaps=bm, total_blocks=total, window_at=at)
+        _write_vhdx_layer(d, names, k, states, [1, 0] if k % 2 else [0, 1], bm, cache, total=total, at=at, sector=sector)
+        disk = B.model(states, MB, sector, None, k + 1, disk, bitmaps=bm, total_blocks=total, window_at=at)
     ctx.model([where, wb, bits, case["base"]])
     ctx.executions += 1
     ctx.sample(case)
@@ -301,8 +308,8 @@ def _case_vhdx_bitmap(case, ctx, d, cache):
     else:
         lo, hi = w0 - 2, w0 + wb + 2
         sreqs = [(a, b - a) for a in range(lo, hi) for b in range(a + 1, hi + 1)]
-        reqs = [(a * 512, c * 512) for a, c in sreqs if c in (1, 2, wb, wb + 4)]
-        reqs += [(lo * 512 + 1, (wb + 3) * 512), (lo * 512 + 511, 1026)]
+        reqs = [(a * sector, c * sector) for a, c in sreqs if c in (1, 2, wb, wb + 4)]
+        reqs += [(lo * sector + 1, (wb + 3) * sector), (lo * sector + 511, 1026), (lo * sector + sector - 1, sector + 2)]
     with ctx.watch(case):
         try:
             v = VHDX(Path(d) / names[-1])
@@ -311,9 +318,9 @@ def _case_vhdx_bitmap(case, ctx, d, cache):
                           {"exception": repr(e)[:300]})
             return
         try:
-            _count_sources(ctx, disk, sreqs, 512)
+            _count_sources(ctx, disk, sreqs, sector)
             subj = f"vhdx.chain{depth}.bitmap.{where}"
-            compare_sector_reads(ctx, case, v.read_sectors, disk, sreqs, subj + ".read_sectors", 512)
+            compare_sector_reads(ctx, case, v.read_sectors, disk, sreqs, subj + ".read_sectors", sector)
             compare_reads(ctx, case, v, disk, reqs, subj + ".read")
         finally:
             _close_chain(v)
